@@ -29,6 +29,7 @@
    VamDefrag.v) whose oracles check the same properties on the whole allocator. *)
 From Coq Require Import ZArith List Lia Permutation.
 From Arsenal Require Import Util Tlsf Pass PassProofs Defrag DefragProofs.
+From Arsenal Require VamDev VamBlockList Vam VamInv VamInvStep VamDefrag VamDefragStep.
 Import ListNotations.
 Open Scope Z_scope.
 
@@ -129,3 +130,38 @@ Example C07_outcomes_meaning : forall st0 st' m d,
    (norm_decision d = 2 -> entry st' (m_src m) = None) /\
    entry st' (m_tmp m) = None /\ True).
 Proof. intros. cbn [outcomes hd tl]. tauto. Qed.
+
+(* ---------------------------------------------------------------- whole allocator (model Vam*.v)
+   EndDefragPass in the whole-allocator model (vam/defrag.go completePassForMove, allocation.go
+   swapBlockAllocation): for every state satisfying the allocator invariant with a valid open pass, a successful
+   End leaves every Allocation object that is not named in a move untouched (tab_frame), unallocates every
+   temporary, and per move: copy = the caller's object now holds the temporary's former place (and
+   C07_allocator_copied_location: that place is the destination block and offset of the move; size, alignment,
+   type, kind, persistent-map flag kept), ignore = source unchanged, destroy = source unallocated.  That the
+   invariant (valid ranges, no overlap) holds at every pass boundary is C02_defrag_* (Props/C02.v). *)
+Module Allocator.
+Import VamDev VamBlockList Vam VamInv VamDefragStep.
+
+Theorem C07_allocator_end_effect : forall c v run ds dc,
+  VamInv c v -> run_ok v run ->
+  VamDev.nth_z (VamDefrag.dr_ctxs run) (VamDefrag.dr_progress run) = Some dc ->
+  match VamDefrag.defrag_end c v run ds with
+  | (v', _, OK _) =>
+      moves_effect v v' (Defrag.c_moves (VamDefrag.dc_ctx dc)) ds /\
+      VamInvStep.tab_frame v v' (mv_slots (Defrag.c_moves (VamDefrag.dc_ctx dc)))
+  | _ => True
+  end.
+Proof. exact defrag_end_effect. Qed.
+Print Assumptions C07_allocator_end_effect.
+
+Theorem C07_allocator_copied_location : forall v v' lr m,
+  mv_ok v lr m -> move_effect v v' m 0 ->
+  let a := get_alloc v (src_of m) in
+  let a' := get_alloc v' (src_of m) in
+  a_allocated a' = true /\ a_kind a' = 1 /\ a_lref a' = lr /\
+  a_blk a' = Defrag.m_dstblk m /\ a_handle a' = Defrag.m_dstoff m /\
+  a_size a' = a_size a /\ a_align a' = a_align a /\ a_type a' = a_type a /\ a_sub a' = a_sub a /\
+  a_persist a' = a_persist a /\ a_mapallowed a' = a_mapallowed a /\ a_temp a' = false.
+Proof. exact copied_location. Qed.
+Print Assumptions C07_allocator_copied_location.
+End Allocator.
